@@ -221,6 +221,40 @@ def decoys(draw, tree, siblings=SIBLINGS):
     return {"tree": t2, "imports": [list(e) for e in draw(import_relation(t2, max_edges=8))]}
 
 
+@st.composite
+def preimage(draw, tree, imports):
+    """A deeper architecture and a level_limit whose flattening is exactly (tree, imports): modules at the deepest level get
+    sub modules, and imports with such an endpoint may start / end at one of the new sub modules instead.
+    Returns {} (no pre-image) or {'full_tree', 'full_imports', 'level_limit'}."""
+    roots = {m.split(".")[0] for m in tree}
+    if len(roots) != 1:
+        return {}  # level_limit counts components from one root
+    depth = max(len(m.split(".")) for m in tree)
+    if depth < 2:
+        return {}
+    deepest = [m for m in tree if len(m.split(".")) == depth]
+    below = {}
+    for m in deepest:
+        if draw(st.booleans()):
+            kids = [m + ".zz"] + ([m + ".zz.w"] if draw(st.booleans()) else []) + ([m + ".a"] if draw(st.booleans()) else [])
+            below[m] = kids
+    if not below:
+        return {}
+    full_imports = []
+    for u, v in imports:
+        u2 = draw(st.sampled_from([u] + below[u])) if u in below else u
+        v2 = draw(st.sampled_from([v] + below[v])) if v in below else v
+        full_imports.append([u2, v2])
+        if draw(st.integers(0, 3)) == 0:
+            full_imports.append([u, v])
+    # imports between two modules that flatten to the same name vanish in the quotient
+    for m, kids in below.items():
+        if len(kids) >= 2 and draw(st.booleans()):
+            full_imports.append([kids[0], kids[-1]])
+    full_tree = sorted(set(tree) | {k for ks in below.values() for k in ks})
+    return {"full_tree": full_tree, "full_imports": [list(e) for e in {tuple(e) for e in full_imports}], "level_limit": depth - 1}
+
+
 def rule_focus(tree, rule) -> set:
     f = set()
     for n in rule["subj"]["names"]:
@@ -250,6 +284,8 @@ def rule_cases(draw, root="q", max_modules=14):
             spec["model_rule"], spec["rule"] = rule, impl
     if draw(st.integers(0, 3)) == 0:
         spec["warm"] = draw(decoys(tree))
+    if draw(st.integers(0, 4)) == 0:
+        spec.update(draw(preimage(tree, imports)))
     return spec
 
 
